@@ -158,8 +158,9 @@ type State struct {
 }
 
 type strConv struct {
-	ref *Term
-	str *Term
+	ref      *Term
+	str      *Term
+	borrowed bool // the array belongs to a badger iterator (Item.Key): valid only until the iterator moves on
 }
 
 // guardedMap: a map reference read out of a guarded field; operations on the same map through
